@@ -131,6 +131,7 @@ class Recorder:
         self.flags = dict(faithful=True, valuesOk=True, argsOk=True)
         self.requests = {}        # rid -> dict(kind, future, expect...)
         self.nrx = 0
+        self.reent = None         # re-entrant unsubscribe planned for the event being dispatched
         self.futs = {}            # rid -> the future / Deferred returned by the API call
         self.cancelled = set()    # call request ids whose result the caller cancelled while pending
         self.handlers = {}        # hid -> fn
@@ -301,6 +302,23 @@ class Recorder:
 
     def on_handler(self, hid, a, kw, details, with_details):
         self.re["hcalls"].append(hid)
+        re_ = self.reent
+        if re_ is not None:
+            re_["n"] += 1
+            if re_["n"] == re_["p"] and not re_["done"]:
+                # this handler unsubscribes the handler that stood at position q when the event arrived (q = p: itself)
+                re_["done"] = True
+                target = re_["snapshot"][re_["q"] - 1]
+                if target.active:
+                    s = self.sess
+                    before = self.last_req()
+                    fut = target.unsubscribe()
+                    rid = self.last_req()
+                    if rid != before and rid in s._unsubscribe_reqs:
+                        self.requests[rid] = dict(kind="unsubscribe")
+                        self.track(fut, rid)
+                    else:
+                        self.track(fut, 0)
         exp = self.event_expect
         if exp is not None:
             if list(a) != exp[0] or dict(kw) != exp[1]:
@@ -655,7 +673,14 @@ def scenario(rng, profile):
             sub = rng.choice([11, 11, 12, 13])
             pubid = rng.randint(1000, 9999)
             R.event_expect = (args, kwargs, pubid)
-            rx(message.Event(sub, pubid, args=margs or None, kwargs=mkwargs or None), dict(t="event", sub=sub))
+            p_, q_ = 0, 0
+            cur = list(s._subscriptions.get(sub, [])) if s._session_id is not None else []
+            if profile == "c11" and cur and rng.random() < 0.35:
+                p_ = rng.randint(1, len(cur))
+                q_ = rng.randint(1, len(cur))
+                R.reent = dict(p=p_, q=q_, n=0, done=False, snapshot=cur)
+            rx(message.Event(sub, pubid, args=margs or None, kwargs=mkwargs or None), dict(t="event", sub=sub, p=p_, q=q_))
+            R.reent = None
             R.event_expect = None
         elif t == "invocation":
             reg = rng.choice([21, 21, 22, 23])
